@@ -170,6 +170,12 @@ def check(col, prog, tier, profile, fixture=None):
             else:
                 lhs, rhs = num * (b1 * a2), (a1 * b2) * den
             key = "%s|identity" % fk(b)
+            # the envelope: the pair handed to the constructor is a product of at most two operand fields per term (the
+            # documented cross-multiplication); a common extra factor is reduced away by norm but overflows sooner
+            deg = max([sum(e for _v, e in k) for pl in (num, den) for k in pl.t] or [0])
+            if lhs == rhs and not den.is_zero() and deg > 2:
+                col.violation("N5", key, b.loc(nc[0].bb), "%s hands Self::new the pair (%s, %s): the value is right but the products have degree %d in the operands' fields instead of 2, so they leave the integer type for operands well inside the envelope in which the documented cross-multiplication is exact" % (b.path, num, den, deg))
+                continue
             if lhs == rhs and not den.is_zero():
                 col.ok("N5", b.loc(nc[0].bb), key, "num/den = (%s) / (%s) satisfies the cross-multiplication identity" % (num, den))
             else:
